@@ -253,12 +253,12 @@ func c01Event(c *ctx, g orb.Geometry, pkg string, le bool, srid int, psrid int, 
 		}
 		if pkg == "wkb" {
 			decb, errB = wkb.Unmarshal(append([]byte{}, data...))
-			decs, errS = wkb.NewDecoder(bytes.NewReader(data)).Decode()
+			decs, errS = wkb.NewDecoder(c01Reader(c.rng, data)).Decode()
 			v, _ := wkb.Value(g).Value()
 			val, _ = v.([]byte)
 		} else {
 			decb, sridB, errB = ewkb.Unmarshal(append([]byte{}, data...))
-			decs, sridS, errS = ewkb.NewDecoder(bytes.NewReader(data)).Decode()
+			decs, sridS, errS = ewkb.NewDecoder(c01Reader(c.rng, data)).Decode()
 			v, _ := ewkb.Value(g, srid).Value()
 			val, _ = v.([]byte)
 			v, _ = ewkb.ValuePrefixSRID(g, psrid).Value()
@@ -421,6 +421,22 @@ func c01Event(c *ctx, g orb.Geometry, pkg string, le bool, srid int, psrid int, 
 	c01PrevCopy = [][]byte{append([]byte{}, val...), append([]byte{}, valp...), append([]byte{}, data...)}
 	e["bytes"] = bytesToInts(data)
 	e["decb"], e["decs"] = dec(decb, sridB, errB), dec(decs, sridS, errS)
+	// what the two decoders returned encodes to the bytes it was decoded from (an empty value does not come back as
+	// a typed nil, which the encoder treats as no geometry at all)
+	e["reenc"] = 1
+	if g != nil && !isNilSlice(g) {
+		for _, dv := range []orb.Geometry{decb, decs} {
+			var re []byte
+			if pkg == "wkb" {
+				re, _ = wkb.Marshal(dv, order)
+			} else {
+				re, _ = ewkb.Marshal(dv, srid, order)
+			}
+			if !bytes.Equal(re, data) {
+				e["reenc"] = 0
+			}
+		}
+	}
 	if scans == nil {
 		scans = []scanRes{}
 	}
